@@ -3,13 +3,13 @@
    every loop head and the recorded history satisfies iter_ok: votes + residual = papers cast. *)
 From Coq Require Import ZArith List Bool String Lia.
 From Droop Require Import Model.KernelBase Model.Arith Model.State Model.Prims Model.Prelude Model.RulesMeek Model.Election
-  Proofs.Zlike Proofs.CmdMeta Proofs.MeekDist Proofs.MeekRun Proofs.ConserveCount.
+  Proofs.Zlike Proofs.CmdMeta Proofs.MeekDist Proofs.MeekRun Proofs.MeekKfRun Proofs.ConserveCount.
 Import ListNotations.
 Open Scope Z_scope.
 
 Definition wf_profile_m (pr : profile) : Prop :=
   wf_profile pr /\
-  forall m r, In (m, r) (pr_eballots pr) -> forall g c, In g r -> In c g ->
+  forall m r, In (m, r) (pr_eballots pr) -> 0 <= m /\ forall g c, In g r -> In c g ->
     exists pc, In pc (pr_cands pr) /\ pc_cid pc = c /\ pc_withdrawn pc = false.
 
 Definition eballot_total (pr : profile) : Z :=
@@ -77,7 +77,7 @@ Proof.
     destruct r as [|r0 r]; [contradiction|]. destruct Hb as [<-|[]]. unfold top_rank in Et. cbn [brank bidx nth_error] in Et. inversion Et; subst c.
     apply live_in. exact (proj2 (proj2 Hwf m (r0 :: r) Hmr) r0 (or_introl eq_refl)).
   - unfold zero_votes. cbn [eballots set_cands]. rewrite eballots_init. intros eb Heb g i Hg Hi. unfold mk_eballots in Heb. apply in_flat_map in Heb. destruct Heb as ([m r] & Hmr & Heb).
-    destruct r as [|r0 r]; [contradiction|]. destruct Heb as [<-|[]]. cbn [erank] in Hg. apply live_in. exact (Hwe m (r0 :: r) Hmr g i Hg Hi).
+    destruct r as [|r0 r]; [contradiction|]. destruct Heb as [<-|[]]. cbn [erank] in Hg. apply live_in. exact (proj2 (Hwe m (r0 :: r) Hmr) g i Hg Hi).
 Qed.
 
 Theorem count_meek_inv pr fuel s k : wf_profile_m pr ->
@@ -102,5 +102,53 @@ Theorem count_meek_iterations pr fuel s k : wf_profile_m pr ->
 Proof.
   intros Hwf He Hk a sn Ha Ht Hs. pose proof (mi_hist _ _ _ _ _ (count_meek_inv pr fuel s k Hwf He Hk)) as H.
   rewrite Forall_forall in H. specialize (H a Ha Ht). rewrite Hs in H. exact H.
+Qed.
+
+(* ---- keep factors in range, nothing negative (arithmetics with exact comparisons and roundings) ---- *)
+Hypothesis Hex : exact A = false.
+Hypothesis Hseats : 0 <= cf_nseats cfg.
+Hypothesis Hnb : 0 <= cf_nballots cfg.
+
+Lemma prek_init (pr : profile) : wf_profile_m pr -> PreK A S ZL (zero_votes A (init_state A cfg pr)).
+Proof.
+  intros [Hwf Hwe]. destruct (init_state_shape A cfg pr) as (Ec & Eb & Ea).
+  split; [|split; [|split]].
+  - intros c Hc. unfold zero_votes in Hc. cbn [cands set_cands] in Hc. apply in_map_iff in Hc. destruct Hc as (c0 & <- & Hc0).
+    rewrite Ec in Hc0. apply in_map_iff in Hc0. destruct Hc0 as (p & <- & Hp). cbn [ckf cst with_vote init_cand].
+    split; [reflexivity|]. destruct (pc_withdrawn p); [right|left]; reflexivity.
+  - unfold zero_votes. cbn [ballots set_cands]. rewrite Eb. apply Forall_forall. intros b Hb. unfold mk_ballots in Hb. apply in_flat_map in Hb.
+    destruct Hb as ([m r] & Hmr & Hb). destruct r as [|r0 r]; [contradiction|]. destruct Hb as [<-|[]].
+    exists m. split; [exact (proj1 (proj2 Hwf m (r0 :: r) Hmr))|cbn [bmult]; apply (r_of_int A S ZL)].
+  - unfold zero_votes. cbn [eballots set_cands]. rewrite eballots_init. apply Forall_forall. intros eb Heb. unfold mk_eballots in Heb. apply in_flat_map in Heb.
+    destruct Heb as ([m r] & Hmr & Heb). destruct r as [|r0 r]; [contradiction|]. destruct Heb as [<-|[]].
+    exists m. split; [exact (proj1 (Hwe m (r0 :: r) Hmr))|cbn [emult]; apply (r_of_int A S ZL)].
+  - unfold zero_votes. cbn [actions set_cands]. eapply Forall_impl; [|exact Ea]. intros a Ha _. rewrite Ha. exact I.
+Qed.
+
+Theorem count_meek_inv_j pr fuel s k : wf_profile_m pr ->
+  exec (@crashed A) fuel (count_cmd A cfg RMeek) (init_state A cfg pr) = Some (s, k) -> k <> Abort ->
+  J A S ZL (T0 pr) s.
+Proof.
+  intros Hwf He Hk.
+  assert (Ht: triple est (@crashed A) (fun s0 => s0 = init_state A cfg pr) (count_cmd A cfg RMeek)
+            (J A S ZL (T0 pr)) (J A S ZL (T0 pr)) (J A S ZL (T0 pr))).
+  { unfold count_cmd. eapply t_seq with (M := fun s0 => Pre0 A S ZL (T0 pr) (live_ids pr) s0 /\ PreK A S ZL s0).
+    - apply t_do. intros s0 ->. split; [apply pre0_init; exact Hwf|apply prek_init; exact Hwf].
+    - eapply t_seq with (M := J A S ZL (T0 pr)); [cbn [rule_cmd]; apply (meek_triple_j A S ZL cfg Hex (T0 pr) Hmeth Hseats Hnb (live_ids pr))|].
+      apply t_do. intros s0 [M K]. split; [apply (mi_log A S ZL cfg (T0 pr) Hmeth); [discriminate|exact M]|apply (ki_log A S ZL cfg Hmeth); [discriminate|exact K]]. }
+  specialize (Ht fuel _ s k eq_refl He). destruct k; try exact Ht. congruence.
+Qed.
+
+(* every 'iterate' snapshot: no negative tally, hopeful keep factor 1, elected in (0, 1], defeated and withdrawn 0,
+   residual not negative *)
+Theorem count_meek_kf_ranges pr fuel s k : wf_profile_m pr ->
+  exec (@crashed A) fuel (count_cmd A cfg RMeek) (init_state A cfg pr) = Some (s, k) -> k <> Abort ->
+  forall a sn, In a (actions s) -> a_tag a = TIterate -> a_snap a = Some sn ->
+  (forall x, In x (as_c sn) -> 0 <= R (sn_vote x) /\ kf_range S (sn_st x) (kfs A S ZL (sn_kf x))) /\
+  match as_nt sn with Some r => 0 <= R r | None => True end.
+Proof.
+  intros Hwf He Hk a sn Ha Ht Hs. destruct (count_meek_inv_j pr fuel s k Hwf He Hk) as [_ [_ K]].
+  pose proof (ki_hist A S ZL s K) as H. rewrite Forall_forall in H. specialize (H a Ha Ht). rewrite Hs in H. destruct H as [H1 H2].
+  split; [|exact H2]. intros x Hx. rewrite Forall_forall in H1. exact (H1 x Hx).
 Qed.
 End MeekCount.
